@@ -404,6 +404,8 @@ def _type_ops():
     ops += [
         ("unknown-packet-family", "family-unknown", packet_mut(lambda sp, p, pk, r: setattr(pk, "family", "NoSuchFamily"))),
         ("unknown-packet-action", "action-unknown", packet_mut(lambda sp, p, pk, r: setattr(pk, "action", "NoSuchAction"))),
+        ("unknown-packet-family", "family-removed-from-enum", packet_mut(lambda sp, p, pk, r: _drop_enum_value(sp, "PacketFamily", pk.family))),
+        ("unknown-packet-action", "action-removed-from-enum", packet_mut(lambda sp, p, pk, r: _drop_enum_value(sp, "PacketAction", pk.action))),
         ("duplicate-packet", "duplicate-in-file", packet_mut(lambda sp, p, pk, r: sp.files[p].packets.append(copy.deepcopy(pk)))),
         ("packet-outside-net", "packet-in-other-dir", packet_mut(lambda sp, p, pk, r: sp.files[r.choice(["", "map", "pub", "net", "pub/server"])].packets.append(copy.deepcopy(pk)))),
         ("packet-missing-attribute", "family-missing", packet_mut(lambda sp, p, pk, r: setattr(pk, "family", None))),
@@ -437,6 +439,19 @@ def instruction_mutants(spec, rng, per_op_placement=3):
                 except Exception:
                     continue
                 yield rule, name, placement + ":" + sites[k].owner[0], clone
+
+
+def _drop_enum_value(sp, enum_name, value_name):
+    """The enum loses a value that a packet still names (the spec was valid a moment ago)."""
+    for f in sp.files.values():
+        for e in f.enums:
+            if e.name == enum_name:
+                keep = [v for v in e.values if v[0] != value_name]
+                if len(keep) == len(e.values) or not keep:
+                    return False
+                e.values[:] = keep
+                return True
+    return False
 
 
 def type_mutants(spec, rng, repeats=2):
